@@ -11,6 +11,7 @@ enumerates): arguments byte-compared before/after, calls repeated / interleaved 
 reproducibility of the mGH upper bound, and representation independence (nested lists / int arrays / float arrays).
 The sweep is also the failing-input search when a generated obligation no longer builds.
 """
+import copy
 import contextlib, copy, io, math, os, random, re, warnings
 import numpy as np
 from .. import common
@@ -622,7 +623,10 @@ def _(r):
             for x in d:
                 if r.random() < 0.5:
                     x.append([x[-1][0] + 1.0, np.inf])
-        return Case(lambda d, h, c: state(C(dgms=d, hom_deg=h, compute=c)), [d, r.choice([0, 1]), r.random() < 0.7])
+        h = r.choice([0, 1])
+        if r.random() < 0.2:                       # the selected degree holds only the essential class (H0 of a connected cloud)
+            d[h] = [[float(r.randint(0, 3)), np.inf]] if isinstance(d[h], list) else np.array([[float(r.randint(0, 3)), np.inf]])
+        return Case(lambda d, h, c: state(C(dgms=d, hom_deg=h, compute=c)), [d, h, r.random() < 0.7])
     cp = mk_exact(r).critical_pairs
     return Case(lambda cp, h: state(C(critical_pairs=cp, hom_deg=h)), [cp, 0])
 
@@ -931,7 +935,15 @@ def _call(c, seed):
         warnings.simplefilter("ignore")
         with np.errstate(all="ignore"):
             try:
-                return ("ok", c.fn(*c.args, **c.kwargs))
+                v = c.fn(*c.args, **c.kwargs)
+                if not c.plot:
+                    # freeze what was returned NOW: a result that aliases state a later call modifies (a mutable
+                    # default argument, a cache) must not be compared with its own later self
+                    try:
+                        v = copy.deepcopy(v)
+                    except Exception:
+                        pass
+                return ("ok", v)
             except Exception as e:            # the code's own errors are part of its behaviour: they must repeat, too
                 return ("err", type(e).__name__)
             finally:
@@ -1076,6 +1088,39 @@ def fresh_process_result(name, seed):
             "sys.stdout.write('RESULT:' + base64.b64encode(pickle.dumps(r)).decode())" % (common.VERIF, name, seed, seed))
     env = dict(os.environ, PERSIM_ROOT=common.REPO, MPLBACKEND="Agg", PYTHONDONTWRITEBYTECODE="1")
     p = subprocess.run([sys.executable, "-W", "ignore", "-c", code], stdout=subprocess.PIPE, stderr=subprocess.PIPE, env=env, timeout=600)
+    out = p.stdout.decode(errors="replace")
+    if p.returncode != 0 or "RESULT:" not in out:
+        return None
+    try:
+        return pickle.loads(base64.b64decode(out.split("RESULT:")[1]))
+    except Exception:
+        return None
+
+
+def find_polluter(name, seed, candidates, per=150):
+    """in a fresh interpreter: the first call (entry, seed) after which the result of case (name, seed) differs from its
+    result at process start; None if no candidate call changes it"""
+    import base64, pickle, subprocess, sys
+    code = ("import sys, pickle, base64, random; sys.path.insert(0, %r); from harness import common; common.import_persim(); "
+            "from harness.props import c19\n"
+            "def go():\n"
+            "    base = c19._call(c19._build(%r, %d), %d)\n"
+            "    rr = random.Random(%d)\n"
+            "    for cand in %r:\n"
+            "        for _ in range(%d):\n"
+            "            s = rr.randint(0, 2 ** 31 - 2)\n"
+            "            try:\n"
+            "                c19._call(c19._build(cand, s), s)\n"
+            "            except Exception:\n"
+            "                continue\n"
+            "            now = c19._call(c19._build(%r, %d), %d)\n"
+            "            if not (now[0] == base[0] and c19.same(now[1], base[1])):\n"
+            "                return [cand, s]\n"
+            "    return None\n"
+            "sys.stdout.write('RESULT:' + base64.b64encode(pickle.dumps(go())).decode())"
+            % (common.VERIF, name, seed, seed, seed, list(candidates), per, name, seed, seed))
+    env = dict(os.environ, PERSIM_ROOT=common.REPO, MPLBACKEND="Agg", PYTHONDONTWRITEBYTECODE="1")
+    p = subprocess.run([sys.executable, "-W", "ignore", "-c", code], stdout=subprocess.PIPE, stderr=subprocess.PIPE, env=env, timeout=900)
     out = p.stdout.decode(errors="replace")
     if p.returncode != 0 or "RESULT:" not in out:
         return None
@@ -1233,6 +1278,23 @@ def run(ctx):
                               found_input=True, obligation_broken=name in suspects)
             if nviol > 5:
                 return
+    if suspects and nviol == 0:
+        # obligations broke and the in-process sweep found nothing: state that leaks ONCE and then stays (a mutable default
+        # argument filled by some earlier call) repeats identically from then on; compare, after the whole history of this
+        # process, with the same call in a fresh interpreter
+        for name in [n for n in suspects if n in BUILDERS and kinds[n] == "obligation" and not n.startswith("landscapes.visuals")][:16]:
+            for seed, text in history_check(ctx, name, kinds[name], ctx.n(3, 10)):
+                nviol += 1
+                cands = [n for n in suspects if n in BUILDERS and not n.startswith("landscapes.visuals")]
+                cands.sort(key=lambda n: (not n.endswith("__init__"), n))      # constructors first
+                pol = find_polluter(name, seed, cands)
+                ctx.violation(text + (": after the single call %s(seed %d)" % tuple(pol) if pol else ""),
+                              {"entry": name, "seed": seed, "check": "fresh_process",
+                               "others": [tuple(pol)] if pol else [(name, seed + k) for k in range(1, 4)],
+                               "note": None if pol else "after the call history of a whole sweep in one process; ./check.py C19 reproduces it"},
+                              found_input=True, obligation_broken=True)
+            if nviol > 3:
+                break
     ctx.extra["suspect_entry_points"] = suspects
 
 
